@@ -10,10 +10,15 @@ import (
 	"context"
 	"crypto/sha256"
 	"fmt"
+	"os"
+	"os/exec"
+	"path/filepath"
 	"sort"
 	"strings"
 	"sync"
 
+	"github.com/restic/restic/internal/global"
+	"github.com/restic/restic/internal/repository"
 	"github.com/restic/restic/internal/repository/crypto"
 	"github.com/restic/restic/internal/repository/index"
 	"github.com/restic/restic/internal/repository/pack"
@@ -202,10 +207,87 @@ func c08Project(mi *index.MasterIndex, vals []c08Entry) (lookupOK, sizeOK bool) 
 	return
 }
 
+
+// c08RejectProbe: a real repository (init + backup through the CLI), one extra index file saved under its
+// true hash with the repository key whose single blob has the given offset; then the real CLI is run in
+// a subprocess (a panic in a loader goroutine cannot be recovered in-process).
+func c08RejectProbe(c *vctx, name string, offset uint64) error {
+	e := newVenv(c, name)
+	src := filepath.Join(e.base, "src")
+	if err := os.MkdirAll(src, 0o755); err != nil {
+		return err
+	}
+	if err := os.WriteFile(filepath.Join(src, "f"), []byte("hello"), 0o644); err != nil {
+		return err
+	}
+	if _, _, err := e.cli("init"); err != nil {
+		return err
+	}
+	if _, _, err := e.cli("backup", src); err != nil {
+		return err
+	}
+	raw := fmt.Sprintf(`{"packs":[{"id":"%s","blobs":[{"id":"%s","type":"data","offset":%d,"length":40}]}]}`,
+		c08ID('p', 1).String(), c08ID('b', 1).String(), offset)
+	var fileID restic.ID
+	_, _, err := e.run(func(ctx context.Context, gopts global.Options) error {
+		repo, err := e.openRepo(ctx)
+		if err != nil {
+			return err
+		}
+		fileID, err = repository.VerifC08SaveUnpacked(ctx, repo, restic.IndexFile, []byte(raw))
+		return err
+	})
+	if err != nil {
+		return err
+	}
+	crashed := false
+	var report []string
+	for _, args := range [][]string{{"ls", "latest"}, {"list", "blobs"}, {"unlock"}, {"check"}} {
+		cmd := exec.Command(os.Args[0], append([]string{"-r", e.repo, "--no-cache"}, args...)...)
+		var env []string
+		for _, kv := range os.Environ() {
+			if !strings.HasPrefix(kv, "RESTIC_") {
+				env = append(env, kv)
+			}
+		}
+		cmd.Env = append(env, "RESTIC_PASSWORD="+vPassword)
+		out, rerr := cmd.CombinedOutput()
+		code := 0
+		if ee, ok := rerr.(*exec.ExitError); ok {
+			code = ee.ExitCode()
+		}
+		panicked := bytes.Contains(out, []byte("panic: ")) && bytes.Contains(out, []byte("goroutine "))
+		if panicked {
+			crashed = true
+		}
+		first := strings.SplitN(strings.TrimSpace(string(out)), "\n", 2)[0]
+		if i := bytes.Index(out, []byte("panic: ")); i >= 0 {
+			first = strings.SplitN(string(out[i:]), "\n", 2)[0]
+		}
+		report = append(report, fmt.Sprintf("restic %s: exit=%d panic=%v first-line=%.120q", strings.Join(args, " "), code, panicked, first))
+	}
+	kind := "index-value-fits"
+	if offset > 4294967295 {
+		kind = "index-oversized-value"
+	}
+	c.Info(name, report)
+	c.Case(kind, true, 1, fmt.Sprintf("C08m.CReject %s %s", coqBool(offset <= 4294967295), coqBool(crashed)),
+		fmt.Sprintf("index file %s = %s; %s", fileID.Str(), raw, strings.Join(report, "; ")))
+	return nil
+}
+
 func engineC08(c *vctx) error {
 	c.Header("Model.C08m", "C08m.case", "C08m.check_case")
 	c.Preamble("Import C08m.")
 	ctx := context.Background()
+
+	// ---- corpus: authenticated index files at and beyond the 32-bit limit, read by the real CLI ----
+	if err := c08RejectProbe(c, "fits", 4294967295); err != nil {
+		return err
+	}
+	if err := c08RejectProbe(c, "oversized", 4294967296); err != nil {
+		return err
+	}
 
 	// ---- histories ----
 	rng0 := c.rng.fork()
